@@ -115,6 +115,7 @@ def routes_agree(which):
     f = rng.standard_normal((m, n))
     if rng.random() < 0.6:
         f = f + 1j * rng.standard_normal((m, n))
+    f = vary_layout(rng, f)          # C / Fortran / transposed / strided memory: the transform may not depend on it
     if which == 'mdft-czt-textbook':
         Q = (float(rng.uniform(0.6, 3)), float(rng.uniform(0.6, 3))) if rng.random() < 0.6 else float(rng.uniform(0.6, 3))
         Qt = Q if isinstance(Q, tuple) else (Q, Q)
